@@ -247,7 +247,8 @@ func (t *TracksReader) MultiPlay(trackouts map[int]drivers.Out) error {
 		},
 	)
 
-	sort.Sort(pl)
+	// stable: messages with the same time must keep the order they have in their track
+	sort.Stable(pl)
 
 	var last time.Duration = 0
 
